@@ -7,7 +7,7 @@ CONSTANTS Types <- AllTypes
           DataLens = {0, 5}
           BlockSizes = {0, 7}
           MaxBlocks = 2
-          V = 12
+          V = 6
           D1 = 3
           D2 = 4
           CaseTypes = {1, 2, 3, 4, 5, 6}
